@@ -2,8 +2,8 @@
     (Generated/ProxGen.v, rewritten on every run) ARE the ones Model/Proximity.v is built from: the neighbour count, the admission
     test, the new size, the growth test, the local-competition comparison; and the source exhibits every array-level fact the model
     fixes by construction (Model/ProxFacts.v). *)
-From Coq Require Import List Arith Bool QArith.
-From PV Require Import Base.QUtil Model.Store Model.Archive Model.Proximity Model.ProxFacts Generated.ProxGen.
+From Coq Require Import List Arith Bool QArith Lia.
+From PV Require Import Base.QUtil Model.Store Model.Archive Model.Proximity Model.ProxFacts Generated.ProxGen Proofs.ProximityProofs.
 Import ListNotations.
 
 Section ProxRefine.
@@ -30,6 +30,19 @@ Theorem gen_growth_is_model : forall (c : pcfg) (st : pstate) (cs : list pcand),
 Proof. intros. reflexivity. Qed.
 End ProxRefine.
 
+(** consequences that hold for every size: the neighbour count read from the source never exceeds the archive nor k, and the growth
+    test read from the source always leaves room for the new size (so no novel row is ever written past the store) *)
+Theorem gen_kk_bounds : forall n k : nat, (gen_kk n k <= n)%nat /\ (gen_kk n k <= k)%nat.
+Proof. intros n k. unfold gen_kk. split; [apply Nat.le_min_l|apply Nat.le_min_r]. Qed.
+
+Theorem gen_growth_makes_room : forall (capacity n m : nat), (1 <= capacity)%nat ->
+  let new_size := gen_new_size n m in
+  (new_size <= (if gen_must_grow new_size capacity then grow capacity new_size else capacity))%nat.
+Proof.
+  intros capacity n m Hc new_size. unfold gen_must_grow.
+  destruct (Nat.ltb_spec capacity new_size) as [Hlt|Hge]; [apply grow_ge; exact Hc|exact Hge].
+Qed.
+
 Theorem gen_facts_are_model : gen_facts = model_facts.
 Proof. reflexivity. Qed.
 
@@ -38,3 +51,5 @@ Print Assumptions gen_novel_enough_is_model.
 Print Assumptions gen_lower_is_model.
 Print Assumptions gen_growth_is_model.
 Print Assumptions gen_facts_are_model.
+Print Assumptions gen_kk_bounds.
+Print Assumptions gen_growth_makes_room.
